@@ -109,6 +109,47 @@ def cpOf (r : Resolved α) (f : Int → Slot → M (α × Slot)) (error : Slot) 
     let live := r.release live                                               -- :55-58
     pure (out, live)                                                         -- :60
 
+/-! ### the same body after the proposed repair notes/proposed_fixes/C06-1.diff
+
+The repair detects a failing element through a local error object instead of through the value 0:
+`tmp = function(Elements[i], …, &tmp_error) * massFractions[i]; if (tmp_error != NULL) { xrl_propagate_error(error, tmp_error); rv = 0.0; break; } rv += tmp;`
+The check recognises which of the two bodies the working tree has from the AST (`cp_template_conforms`) and runs the model
+with the same switch. -/
+
+/-- `xrl_propagate_error(dest, src)` with `src != NULL` (src/xraylib-error.c:151-170): a NULL `dest` frees `src`, an empty one takes
+it, a full one keeps its error and the C code prints the overwrite diagnostic -/
+def propagateErr (dest : Slot) (e : Err) : M Slot :=
+  match dest with
+  | .null => pure .null
+  | .empty => pure (.full e)
+  | .full _ => throw .overwrite
+
+def cpLoopFixed (f : Int → Slot → M (α × Slot)) : Els α → α → Slot → M (α × Slot)
+  | [], rv, error => pure (rv, error)
+  | (Z, w) :: rest, rv, error => do
+    let (v, tmp_error) ← f Z Slot.empty                       -- function(Elements[i], …, &tmp_error), tmp_error == NULL before
+    let tmp := v * w
+    match tmp_error with
+    | .full e => do                                           -- if (tmp_error != NULL)
+      let error ← propagateErr error e                        --   xrl_propagate_error(error, tmp_error);
+      pure ((0.0 : α), error)                                 --   rv = 0.0; break;
+    | _ => cpLoopFixed f rest (rv + tmp) error                -- rv += tmp;
+
+def cpOfFixed (r : Resolved α) (f : Int → Slot → M (α × Slot)) (error : Slot) (live : Nat) : M ((α × Slot) × Nat) :=
+  match r.elements with
+  | none => do
+    let error ← setErr error XRL_ERROR_INVALID_ARGUMENT UNKNOWN_COMPOUND
+    pure (((0.0 : α), error), live)
+  | some els => do
+    let live := r.alloc live
+    let out ← cpLoopFixed f els (0.0 : α) error
+    let live := r.release live
+    pure (out, live)
+
+def cpFixed (parse : Option (Parsed α)) (nist : Option (Nist α)) (f : Int → Slot → M (α × Slot)) (error : Slot) (live : Nat) :
+    M ((α × Slot) × Nat) :=
+  cpOfFixed (resolve parse nist) f error live
+
 /-- `function_CP(compound, …, error)` -/
 def cp (parse : Option (Parsed α)) (nist : Option (Nist α)) (f : Int → Slot → M (α × Slot)) (error : Slot) (live : Nat) :
     M ((α × Slot) × Nat) :=
@@ -290,6 +331,32 @@ def expectedCpTemplate : List String := [
   "  rv += tmp;",
   "}"] ++ freeLines "" ++ [
   "return rv;"]
+
+/-- the body after notes/proposed_fixes/C06-1.diff -/
+def expectedCpTemplateFixed : List String := [
+  "struct compoundData * cd = NULL;",
+  "struct compoundDataNIST * cdn = NULL;",
+  "int i;",
+  "double rv = 0.0;",
+  "int nElements = 0;",
+  "int * Elements = NULL;",
+  "double * massFractions = NULL;",
+  "xrl_error * tmp_error = NULL;"] ++ resolveLines false "0.0" ++ [
+  "for (i = 0; i < nElements; i++) {",
+  "  double tmp = 0.0;",
+  "  tmp = @F(@ARGS) * massFractions[i];",
+  "  if (tmp_error != NULL) {",
+  "    xrl_propagate_error(error, tmp_error);",
+  "    rv = 0.0;",
+  "    break;",
+  "  }",
+  "  rv += tmp;",
+  "}"] ++ freeLines "" ++ [
+  "return rv;"]
+
+/-- the slot argument the elemental call receives in the body with the given template -/
+def slotArgOf (templates : List (List String)) : String :=
+  if templates = [expectedCpTemplateFixed] then "&tmp_error" else "error"
 
 def guardLines : List String := [
   "if (density <= 0.0) {",
